@@ -17,7 +17,9 @@
                  fl   : follow_links,
                  sfs  : same_file_system,
                  filt : 0 or the node whose name the caller's entry filter rejects,
-                 ignd, ignt : 0,0 or: directory ignd holds a custom ignore file naming node ignt].
+                 ignd, ignt : 0,0 or: directory ignd holds a custom ignore file naming node ignt,
+                 igndir : the ignore rule is directory-only ("n<ignt>/"): it applies to ignt only where ignt
+                          is a directory - which a link to a directory is exactly when links are followed].
 
    Three decision operators are kept SEPARATE on purpose:
      RefDecision       what the property's statement says about one directory entry,
@@ -26,7 +28,7 @@
      ParallelDecision  transcribed from Worker::generate_work + Worker::run_one (parallel walker).
    TLC checks them against each other on every entry shape x every flag combination (DesignAgree,
    DesignConforms) and uses all three to walk every generated tree.                              *)
-EXTENDS Integers, Sequences, FiniteSets, TLC, Json
+EXTENDS Integers, Sequences, FiniteSets, TLC, Json, Randomization
 
 CONSTANTS MaxNodes,     \* trees have 1..MaxNodes nodes
           MinEmit,      \* only trees with at least this many nodes get scenarios (smaller ones belong to another cfg)
@@ -34,8 +36,12 @@ CONSTANTS MaxNodes,     \* trees have 1..MaxNodes nodes
           Devs,         \* {1} or {1, 2}
           RootMode,     \* "first": the only root is node 1 and it is a directory;  "any": 1..MaxRoots distinct nodes
           MaxRoots,
-          OptMode,      \* "full": the whole option product; "relevant": options that cannot bite on the tree stay off
-          ExactSize     \* simulation: 0, or every behaviour builds a tree of a size fixed in the initial state
+          OptMode,      \* "full": the whole option product; "relevant": options that cannot bite on the tree stay off;
+                        \* "device": same_file_system and follow_links on, no size limit, every filter / ignore rule
+          ExactSize,    \* simulation: 0, or every behaviour builds a tree of a size fixed in the initial state
+          NeedDev2,     \* TRUE: only trees in which some link leads to the other device get scenarios
+          OptSample     \* simulation: 0 = every option record of OptSet, k > 0 = a random k-subset of it per (tree, roots)
+                        \* (TLC's simulator evaluates the invariants on ALL successors, so each trace emits k scenarios)
 
 VARIABLES tree, roots, opts, pc, goal
 vars == <<tree, roots, opts, pc, goal>>
@@ -81,13 +87,17 @@ IgnPairs(t) == {<<d, x>> : d \in {j \in 1..Len(t) : t[j].kind = "dir"}, x \in 1.
 
 OptSet(t) ==
   LET full == OptMode = "full"
-      B(on) == IF full \/ on THEN BOOLEAN ELSE {FALSE}
+      B(on) == IF OptMode = "device" THEN {TRUE} ELSE IF full \/ on THEN BOOLEAN ELSE {FALSE}
       hasBig == \E i \in 1..Len(t) : t[i].kind = "file" /\ t[i].big
       hasLink == \E i \in 1..Len(t) : t[i].kind = "link"
       hasDev2 == \E i \in 1..Len(t) : t[i].dev # 1
-      igns == {<<0, 0>>} \cup {pr \in IgnPairs(t) : pr[2] \in PhysDesc(t, pr[1])}
-  IN {[md |-> m, fs |-> a, fl |-> b, sfs |-> c, filt |-> f, ignd |-> g[1], ignt |-> g[2]]
-        : m \in Depths, a \in B(hasBig), b \in B(hasLink), c \in B(hasDev2), f \in 0..Len(t), g \in igns}
+      \* <<directory holding the ignore file, node it names, directory-only rule>>
+      igns == {<<0, 0, FALSE>>}
+              \cup {<<pr[1], pr[2], k>> : pr \in {q \in IgnPairs(t) : q[2] \in PhysDesc(t, q[1])}, k \in BOOLEAN}
+  IN {[md |-> m, fs |-> a, fl |-> b, sfs |-> c, filt |-> f, ignd |-> g[1], ignt |-> g[2], igndir |-> g[3]]
+        : m \in Depths, a \in (IF OptMode = "device" THEN {FALSE} ELSE B(hasBig)), b \in B(hasLink),
+          c \in (IF Devs = {1} THEN {FALSE} ELSE B(hasDev2)),      \* one device: same_file_system cannot act
+          f \in 0..Len(t), g \in igns}
 
 -----------------------------------------------------------------------------
 (* One directory entry (depth > 0) as the walkers see it.
@@ -95,7 +105,7 @@ OptSet(t) ==
      loop  : it is a link to a directory that is already an ancestor on the traversal path
      big   : size of the file (or of the file a link resolves to) exceeds the limit
      named : its name is the one the entry filter rejects
-     ign   : an ignore rule in scope names it
+     ign   : "no", or an ignore rule in scope names it: "any" (plain rule) / "dir" (directory-only rule)
      deep  : a depth limit is set and this entry sits at (or beyond) it
      xdev  : it resolves to something on another device than the root it was reached from     *)
 
@@ -103,10 +113,15 @@ Shapes == {[kind |-> "file", tk |-> "file", loop |-> FALSE], [kind |-> "dir", tk
            [kind |-> "link", tk |-> "file", loop |-> FALSE], [kind |-> "link", tk |-> "dir", loop |-> FALSE],
            [kind |-> "link", tk |-> "dir", loop |-> TRUE], [kind |-> "link", tk |-> "none", loop |-> FALSE]}
 Attrs == {[kind |-> s.kind, tk |-> s.tk, loop |-> s.loop, big |-> b, named |-> n, ign |-> i, deep |-> d, xdev |-> x]
-            : s \in Shapes, b \in BOOLEAN, n \in BOOLEAN, i \in BOOLEAN, d \in BOOLEAN, x \in BOOLEAN}
+            : s \in Shapes, b \in BOOLEAN, n \in BOOLEAN, i \in {"no", "any", "dir"}, d \in BOOLEAN, x \in BOOLEAN}
+
+\* does the ignore rule hit an entry whose (resolved, as far as links are followed) type is ty ?
+IgnHit(a, ty) == a.ign = "any" \/ (a.ign = "dir" /\ ty = "dir")
 Flags == [fs : BOOLEAN, fl : BOOLEAN, sfs : BOOLEAN, filt : BOOLEAN]
 
-Dec(y, e, d, op) == [yield |-> y, err |-> e, desc |-> d, opt |-> op]
+\* yield: reported; err: reported as an error; desc: entered; opt: (reference only) the error is optional;
+\* cut: side effect - the not yet listed rest of the PARENT directory is dropped
+Dec(y, e, d, op) == [yield |-> y, err |-> e, desc |-> d, opt |-> op, cut |-> FALSE]
 
 (* The statement: an entry is reported iff no filter removes it; a reported directory is entered
    iff the depth limit and the device rule allow; with link following a cycle is an error and is
@@ -118,18 +133,24 @@ RefDecision(a, f) ==
       cycle == followed /\ a.tk = "dir" /\ a.loop
       broken == followed /\ a.tk = "none"
       sized == f.fs /\ ty # "dir" /\ (IF a.kind = "link" THEN followed /\ a.big ELSE a.big)
-      removed == a.ign \/ (f.filt /\ a.named) \/ sized
+      removed == IgnHit(a, ty) \/ (f.filt /\ a.named) \/ sized
       y == ~cycle /\ ~broken /\ ~removed
   IN IF broken THEN Dec(FALSE, TRUE, FALSE, TRUE)
-     ELSE IF cycle THEN Dec(FALSE, TRUE, FALSE, a.ign \/ (f.filt /\ a.named))
+     ELSE IF cycle THEN Dec(FALSE, TRUE, FALSE, IgnHit(a, ty) \/ (f.filt /\ a.named))
      ELSE Dec(y, FALSE, y /\ ty = "dir" /\ ~a.deep /\ (~f.sfs \/ ~a.xdev), FALSE)
 
 (* Single-threaded walker.  walkdir: IntoIter::handle_entry (follow -> from_path(.., true) fails on a
    dangling link, check_loop for directories; is_normal_dir => push unless same_file_system refuses;
    IntoIter::next pops a directory deeper than max_depth).  ripgrep: Walk::next turns a skip of a Dir
    event into skip_current_dir; Walk::skip_entry is transcribed statement by statement.
-   kf = TRUE is the code as pinned: with max_filesize set, a non-directory RETURNS the size verdict
-   and never reaches the entry filter.  kf = FALSE is the repaired order.                         *)
+   kf = TRUE is the code as pinned, with two named deviations:
+     (1) with max_filesize set, a non-directory RETURNS the size verdict and never reaches the entry
+         filter;
+     (2) Walk::next answers a skipped Dir event with walkdir's skip_current_dir(), which pops the
+         directory on top of walkdir's stack; a directory that walkdir did not push (same_file_system
+         set, other device) is not there, so its PARENT is popped and the rest of the parent's listing
+         is lost (cut).
+   kf = FALSE is the repaired walker.                                                            *)
 SerialDecision(a, f, kf) ==
   LET followed == f.fl /\ a.kind = "link"
       wdErr == followed /\ (a.tk = "none" \/ (a.tk = "dir" /\ a.loop))
@@ -137,12 +158,12 @@ SerialDecision(a, f, kf) ==
       isDir == ty = "dir"
       pushed == isDir /\ (~f.sfs \/ ~a.xdev)
       over == IF a.kind = "link" THEN followed /\ a.big ELSE a.big      \* skip_filesize(metadata().len())
-      skip == IF a.ign THEN TRUE                                         \* should_skip_entry
+      skip == IF IgnHit(a, ty) THEN TRUE                                 \* should_skip_entry(ig, ent): is_dir of the DirEntry
               ELSE IF f.fs /\ ~isDir /\ kf THEN over                      \* return Ok(skip_filesize(..))
               ELSE IF f.fs /\ ~isDir /\ over THEN TRUE
               ELSE f.filt /\ a.named                                     \* filter(ent)
   IN IF wdErr THEN Dec(FALSE, TRUE, FALSE, FALSE)
-     ELSE Dec(~skip, FALSE, ~skip /\ pushed /\ ~a.deep, FALSE)
+     ELSE [Dec(~skip, FALSE, ~skip /\ pushed /\ ~a.deep, FALSE) EXCEPT !.cut = kf /\ skip /\ isDir /\ ~pushed]
 
 (* Parallel walker.  generate_work: follow (from_path(.., true), check_symlink_loop) -> errors go to
    the visitor; should_skip_entry; should_skip_filesize and should_skip_filtered are BOTH computed;
@@ -156,7 +177,7 @@ ParallelDecision(a, f) ==
       over == IF a.kind = "link" THEN followed /\ a.big ELSE a.big
       skipSize == f.fs /\ ~isDir /\ over
       skipFilt == f.filt /\ a.named
-      sent == ~a.ign /\ ~skipSize /\ ~skipFilt
+      sent == ~IgnHit(a, ty) /\ ~skipSize /\ ~skipFilt      \* should_skip_entry comes after the follow block
       leaf == ty = "link" \/ ~isDir
       sameDev == ~f.sfs \/ ~a.xdev
   IN IF gwErr THEN Dec(FALSE, TRUE, FALSE, FALSE)
@@ -165,6 +186,7 @@ ParallelDecision(a, f) ==
 Conforms(d, r) == /\ d.yield = r.yield /\ d.desc = r.desc
                   /\ (r.opt \/ d.err = r.err)
                   /\ (d.err => r.err)
+                  /\ ~d.cut
 
 \* design level: all entry shapes x all flag combinations
 DesignCex(kf) == {<<a, f>> \in Attrs \X Flags : SerialDecision(a, f, kf) # ParallelDecision(a, f)}
@@ -185,32 +207,53 @@ Decide(m, a, f) == CASE m = "serial" -> SerialDecision(a, f, FALSE)
 
 FlagsOf(o) == [fs |-> o.fs, fl |-> o.fl, sfs |-> o.sfs, filt |-> o.filt # 0]
 
-RECURSIVE ListDir(_, _, _, _, _)
-(* entries below directory node `dir`; c describes how it was reached:
-   c.k root index, c.path node ids from the root, c.depth, c.anc the directories on the path
-   (including dir), c.ign: an ignore file on the path (including dir's own) is in force,
-   c.rdev the device of the root *)
-ListDir(m, t, o, dir, c) ==
-  UNION { LET r == Res(t, ch)
-              a == [kind |-> t[ch].kind,
-                    tk |-> IF r = 0 THEN "none" ELSE t[r].kind,
-                    loop |-> t[ch].kind = "link" /\ r # 0 /\ t[r].kind = "dir" /\ r \in c.anc,
-                    big |-> r # 0 /\ t[r].kind = "file" /\ t[r].big,
-                    named |-> o.filt = ch,
-                    ign |-> c.ign /\ o.ignt = ch,
-                    deep |-> o.md # NoLimit /\ c.depth + 1 >= o.md,
-                    xdev |-> r # 0 /\ t[r].dev # c.rdev]
-              d == Decide(m, a, FlagsOf(o))
-              p == Append(c.path, ch)
-              here == IF d.err THEN {[r |-> c.k, p |-> p, e |-> 1, opt |-> d.opt]}
-                      ELSE IF d.yield THEN {[r |-> c.k, p |-> p, e |-> 0, opt |-> FALSE]}
-                      ELSE {}
-          IN here \cup (IF d.desc
-                        THEN ListDir(m, t, o, r, [k |-> c.k, path |-> p, depth |-> c.depth + 1,
-                                                  anc |-> c.anc \cup {r}, ign |-> c.ign \/ o.ignd = r,
-                                                  rdev |-> c.rdev])
-                        ELSE {})
-        : ch \in Kids(t, dir) }
+(* c describes how the directory being listed was reached: c.k root index, c.path node ids from the
+   root, c.depth, c.anc the directories on the path (including the directory itself), c.ign: an
+   ignore file on the path (including the directory's own) is in force, c.rdev the root's device *)
+AttrsOf(t, o, ch, c) ==
+  LET r == Res(t, ch)
+  IN [kind |-> t[ch].kind,
+      tk |-> IF r = 0 THEN "none" ELSE t[r].kind,
+      loop |-> t[ch].kind = "link" /\ r # 0 /\ t[r].kind = "dir" /\ r \in c.anc,
+      big |-> r # 0 /\ t[r].kind = "file" /\ t[r].big,
+      named |-> o.filt = ch,
+      ign |-> IF c.ign /\ o.ignt = ch THEN (IF o.igndir THEN "dir" ELSE "any") ELSE "no",
+      deep |-> o.md # NoLimit /\ c.depth + 1 >= o.md,
+      xdev |-> r # 0 /\ t[r].dev # c.rdev]
+
+Below(t, o, ch, c) ==
+  LET r == Res(t, ch)
+  IN [k |-> c.k, path |-> Append(c.path, ch), depth |-> c.depth + 1, anc |-> c.anc \cup {r},
+      ign |-> c.ign \/ o.ignd = r, rdev |-> c.rdev]
+
+RECURSIVE Child(_, _, _, _, _)
+\* what entry ch of the listed directory contributes: itself and, if entered, everything below it
+Child(m, t, o, ch, c) ==
+  LET d == Decide(m, AttrsOf(t, o, ch, c), FlagsOf(o))
+      p == Append(c.path, ch)
+      here == IF d.err THEN {[r |-> c.k, p |-> p, e |-> 1, opt |-> d.opt]}
+              ELSE IF d.yield THEN {[r |-> c.k, p |-> p, e |-> 0, opt |-> FALSE]}
+              ELSE {}
+  IN here \cup (IF d.desc
+                THEN LET cc == Below(t, o, ch, c)
+                     IN UNION {Child(m, t, o, g, cc) : g \in Kids(t, Res(t, ch))}
+                ELSE {})
+
+ListDir(m, t, o, dir, c) == UNION {Child(m, t, o, ch, c) : ch \in Kids(t, dir)}
+
+(* Deviation (2) of the pinned serial walker on a whole tree: which entries are lost depends on the
+   readdir order; LoseDir is the set of entries that can be lost in this way (every sibling of a
+   directory that triggers the cut, with its subtree). *)
+SerialUnpushedSkip(a, f) == SerialDecision(a, f, TRUE).cut
+
+RECURSIVE LoseDir(_, _, _, _)
+LoseDir(t, o, dir, c) ==
+  LET ks == Kids(t, dir)
+      trig == {ch \in ks : SerialUnpushedSkip(AttrsOf(t, o, ch, c), FlagsOf(o))}
+      here == UNION {Child("ref", t, o, ch, c) : ch \in {x \in ks : trig \ {x} # {}}}
+      below == UNION {LoseDir(t, o, Res(t, ch), Below(t, o, ch, c))
+                        : ch \in {x \in ks : RefDecision(AttrsOf(t, o, x, c), FlagsOf(o)).desc}}
+  IN here \cup below
 
 (* a root is always reported (depth 0 is never filtered); a root that is, or links to, a directory is
    entered unless the depth limit is 0 *)
@@ -221,6 +264,12 @@ WalkRoot(m, t, o, k, rt) ==
      \cup (IF t[r].kind = "dir" /\ o.md # 0 THEN ListDir(m, t, o, r, c) ELSE {})
 
 Walk(m, t, rs, o) == UNION {WalkRoot(m, t, o, k, rs[k]) : k \in 1..Len(rs)}
+
+Lose(t, rs, o) ==
+  UNION { LET r == Res(t, rs[k])
+              c == [k |-> k, path |-> <<rs[k]>>, depth |-> 0, anc |-> {r}, ign |-> o.ignd = r, rdev |-> t[r].dev]
+          IN IF t[r].kind = "dir" /\ o.md # 0 THEN LoseDir(t, o, r, c) ELSE {}
+        : k \in 1..Len(rs) }
 
 Strip(S) == {[r |-> x.r, p |-> x.p, e |-> x.e] : x \in S}
 Must(t, rs, o) == Strip({x \in Walk("ref", t, rs, o) : ~x.opt})
@@ -237,7 +286,8 @@ WalkAgrees(t, rs, o) ==
 -----------------------------------------------------------------------------
 (* Scenario generator: grow a tree node by node, then pick roots, then options *)
 
-NoOpts == [md |-> NoLimit, fs |-> FALSE, fl |-> FALSE, sfs |-> FALSE, filt |-> 0, ignd |-> 0, ignt |-> 0]
+NoOpts == [md |-> NoLimit, fs |-> FALSE, fl |-> FALSE, sfs |-> FALSE, filt |-> 0, ignd |-> 0, ignt |-> 0,
+           igndir |-> FALSE]
 
 Init == /\ tree = <<>> /\ roots = <<>> /\ opts = NoOpts /\ pc = "build"
         /\ goal \in (IF ExactSize = 0 THEN {0} ELSE MinEmit..MaxNodes)
@@ -249,12 +299,17 @@ AddNode == /\ pc = "build" /\ Len(tree) < MaxNodes
 
 PickRoots == /\ pc = "build" /\ Len(tree) >= MinEmit
              /\ (goal # 0 => Len(tree) = goal)
+             /\ (NeedDev2 => \E i \in 1..Len(tree) : /\ tree[i].kind = "link" /\ Res(tree, i) # 0
+                                                      /\ tree[Res(tree, i)].dev # tree[i].dev)
              /\ \E rs \in RootSeqs(tree) : roots' = rs
              /\ pc' = "roots"
              /\ UNCHANGED <<tree, opts, goal>>
 
 PickOpts == /\ pc = "roots"
-            /\ \E o \in OptSet(tree) : opts' = o
+            /\ \E o \in (IF OptSample = 0 THEN OptSet(tree)
+                         ELSE LET S == OptSet(tree)
+                              IN RandomSubset(IF OptSample < Cardinality(S) THEN OptSample ELSE Cardinality(S), S))
+                  : opts' = o
             /\ pc' = "done"
             /\ UNCHANGED <<tree, roots, goal>>
 
@@ -269,7 +324,7 @@ ModelOK == Done => WalkAgrees(tree, roots, opts)
 (* emitted once per scenario for replay on the real walkers: the scenario, the entries that must be
    reported, the entries that may be, whether the options change the result at all (pruned), and -
    only where it differs from the repaired design - what the pinned serial walker (kf) is predicted
-   to report *)
+   to report, and the entries the pinned serial walker may lose through the second named deviation *)
 Emitted ==
   Done => LET must == Must(tree, roots, opts)
               kf == Strip(Walk("serialkf", tree, roots, opts))
@@ -279,7 +334,8 @@ Emitted ==
                                       pruned |-> Strip(Walk("ref", tree, roots, [NoOpts EXCEPT !.fl = opts.fl]))
                                                    # Strip(Walk("ref", tree, roots, opts)),
                                       kfdiff |-> kf # s,
-                                      kf |-> IF kf # s THEN kf ELSE {}])>>)
+                                      kf |-> IF kf # s THEN kf ELSE {},
+                                      lose |-> Strip(Lose(tree, roots, opts))])>>)
 
 -----------------------------------------------------------------------------
 (* Design-level run: one state *)
@@ -287,5 +343,6 @@ DesignInit == tree = <<>> /\ roots = <<>> /\ opts = NoOpts /\ pc = "design" /\ g
 DesignNext == UNCHANGED vars
 DesignEmit == pc = "design" => PrintT(<<"DESIGN", ToJson([combos |-> Cardinality(Attrs \X Flags),
                                          cex_fixed |-> DesignCex(FALSE),
-                                         cex_kf |-> {[a |-> x[1], f |-> x[2]] : x \in DesignCex(TRUE)}])>>)
+                                         cex_kf |-> {[a |-> x[1], f |-> x[2], cut |-> SerialDecision(x[1], x[2], TRUE).cut]
+                                                       : x \in DesignCex(TRUE)}])>>)
 =============================================================================
